@@ -64,6 +64,10 @@ func pickGrammar0(r *rand.Rand, idx int, usable bool, cfg gen.RandCfg) *spec.Gra
 		json.Unmarshal(b, &g)
 		return &g
 	}
+	if usable && idx%200 == 57 {
+		// close to the built-in limit of 2000 parser states (1500-2400 states)
+		return gen.HugeN(r, 800+r.Intn(150))
+	}
 	if usable && idx%5 == 3 {
 		return gen.Contexts(r)
 	}
